@@ -47,6 +47,9 @@ fn rule_pool() -> Vec<(&'static str, &'static str)> {
         ("sym_index_bad", ":s.a"),
         ("sym_index_bad_kind", ":blocked.0"),
         ("sym_and_flag", "[x.y and :off, x.y or :on]"),
+        // the same string / None argument handed to the cacheable function by a second rule
+        ("call_c_field_s_again", "is_some(c(s))"),
+        ("call_c_none_again", "c(none)"),
     ]
 }
 
@@ -137,7 +140,13 @@ fn handler(world: &Arc<Mutex<World>>) -> Handler {
             }
         };
         if fails {
-            (Err(anyhow::Error::new(Injected(0))), 0)
+            // string and None arguments fail the way `param.try_into()?` does inside a user function
+            // (a reval error travelling through anyhow), the others with the harness's own error type
+            if matches!(arg, RV::Str(_) | RV::None) {
+                (Err(anyhow::Error::new(reval::Error::UnexpectedValueType(Value::Int(0), "harness".to_string()))), 0)
+            } else {
+                (Err(anyhow::Error::new(Injected(0))), 0)
+            }
         } else {
             (Ok(fn_value(name, &arg).to_value()), 0)
         }
